@@ -32,7 +32,8 @@ fn run(n_prev: usize, has_ext: bool, p256_block: bool, p256_next: bool) {
     std::mem::forget(block_kp);
     std::mem::forget(next_kp);
     std::mem::forget(ext);
-    kani::cover!(got == 1 && !needs_v1, "witness: version 1 inherited from an earlier block");
+    kani::cover!(got == 1, "witness-any: chained signature scheme chosen");
+    kani::cover!(got == 0, "witness-any: legacy signature scheme chosen");
     assert!(got == expected, "signature version differs from the specification (or switches back to 0)");
 }
 
